@@ -390,6 +390,27 @@ pub enum Extra<'a> {
     /// ASCII prefix, multi-byte ending (a completion that appends a multi-byte character to ASCII text)
     #[command(name = "até")]
     Ate,
+    /// Configuration
+    ///
+    /// Shows everything when no sub-command is given
+    Conf {
+        #[arg(short, long)]
+        verbose: bool,
+        #[command(subcommand)]
+        sub: Option<ConfCmd<'a>>,
+    },
+}
+
+/// An optional sub-command (`conf`, `conf get key`, `conf reset`)
+#[derive(Debug, Command)]
+pub enum ConfCmd<'a> {
+    /// Read one key
+    Get {
+        /// Key to read
+        key: &'a str,
+    },
+    /// Forget everything
+    Reset,
 }
 
 #[derive(Debug, Command)]
@@ -483,7 +504,7 @@ impl CmdSet for GroupSet {
     type C = Grouped<'static>;
     const NAME: &'static str = "group";
     fn names() -> Vec<String> {
-        ["get-led", "exit", "get-adc", "set", "net", "эхо", "go-to", "hello", "старт", "стоп", "até"]
+        ["get-led", "exit", "get-adc", "set", "net", "эхо", "go-to", "hello", "старт", "стоп", "até", "conf"]
             .iter()
             .map(|s| s.to_string())
             .collect()
